@@ -6,6 +6,8 @@ import (
 	"strconv"
 	"strings"
 	"sync"
+
+	"github.com/rulego/streamsql/logger"
 )
 
 // TableSource backs a stream-table JOIN (v0.5: metadata enrichment).
@@ -229,7 +231,18 @@ func (ts *tableStore) closeAll() {
 	ts.mu.Lock()
 	defer ts.mu.Unlock()
 	for _, src := range ts.sources {
-		_ = src.Close()
+		closeSource(src)
 	}
 	ts.sources = make(map[string]TableSource)
+}
+
+// closeSource closes one table source. Close is code supplied by the user of a custom source: a
+// panic in it must not escape Stop (nor keep the remaining sources from being closed).
+func closeSource(src TableSource) {
+	defer func() {
+		if r := recover(); r != nil {
+			logger.GetDefault().Error("table source: panic recovered in Close: %v", r)
+		}
+	}()
+	_ = src.Close()
 }
